@@ -465,7 +465,7 @@ HOSTILE = ("pub struct Impl; pub struct Box; pub struct Pin; pub struct Option; 
 
 def cases_c19(rng, n, nostd=False):
     out = []
-    kinds = ["fn", "fn_async", "mod", "conc", "trait", "trait_ref", "trait_borrow", "inversion", "inversion_dyn", "named_send", "named_sync", "macro_rules"]
+    kinds = ["fn", "fn_async", "mod", "conc", "trait", "trait_ref", "trait_borrow", "inversion", "inversion_dyn", "named_send", "named_sync", "macro_rules", "macro_rules_trait"]
     for i in range(n):
         kind = kinds[i % len(kinds)]
         E = "::entrait::entrait"
@@ -507,6 +507,12 @@ def cases_c19(rng, n, nostd=False):
             pre = ""
             lib = ("macro_rules! lookup { ($Trait:ident, $name:ident) => {\n#[%s(pub $Trait, no_deps)]\npub fn $name(fallback: fn() -> i64) -> i64 { fallback() + 1 }\n} }\n"
                    "pub fn fallback() -> i64 { 70 }\npub fn four() -> i64 { 4 }\nlookup!(Tr, f);\npub struct App;\npub fn call() -> i64 { Tr::f(&%s::new(App), four) }") % (E, I)
+        elif kind == "macro_rules_trait":
+            # two distinct bindings both spelled `a` (one from the macro body, one from the caller): each must be forwarded as itself
+            pre = ""
+            lib = ("macro_rules! mk { ($rhs:ident) => {\n#[%s]\npub trait Tq { fn sub(&self, a: i64, $rhs: i64) -> i64; }\n"
+                   "pub struct P; impl Tq for P { fn sub(&self, a: i64, $rhs: i64) -> i64 { a - $rhs } }\n} }\nmk!(a);\n"
+                   "pub fn call() -> i64 { Tq::sub(&%s::new(P), 7, 2) }") % (E, I)
         elif kind == "named_send":
             pre = ""
             lib = "#[%s(pub Send)]\npub fn send(deps: &impl %s, x: i64) -> i64 { x + 1 }\npub struct App; impl %s for %s<App> {}\npub fn call() -> i64 { Send::send(&%s::new(App), 4) }" % (E, A_, A_, I, I)
@@ -646,8 +652,8 @@ def build_cases(seed, tier):
     cases += cases_c13(rng, 72 * k)
     cases += cases_c12(rng, 21 * k)
     cases += cases_c14(rng, 27 * k)
-    cases += cases_c19(rng, 12 * k)
-    cases += cases_c19(rng, 12, nostd=True)
+    cases += cases_c19(rng, 13 * k)
+    cases += cases_c19(rng, 13, nostd=True)
     cases += cases_c10(rng, 60 * k)
     cases += cases_c11(rng, 27 * k)
     for i, c in enumerate(cases):
